@@ -44,6 +44,7 @@ def _group_sets(draw, distinct=None, max_size=10, min_each=0):
                 # how the caller holds the labels, whether an absent class is passed as [] and
                 # whether the caller sorts the scores itself (is_sorted=True)
                 labels_as=draw(st.sampled_from(["array", "array", "list", "series"])),
+                flag_kind=draw(st.sampled_from(["py", "py", "np", "int"])),
                 empty_as_list=draw(st.booleans()), sorted_input=draw(st.sampled_from([False, False, True])))
 
 
@@ -86,8 +87,10 @@ def _make(d, via="ctor", is_sorted=False):
             pos, pg = [], []
         if len(neg) == 0:
             neg, ng = [], []
+    # the flag as a literal, as the result of a NumPy test (np.all(np.diff(x) >= 0)), as 0 / 1
+    flag = {"py": bool(is_sorted), "np": np.bool_(is_sorted), "int": int(is_sorted)}[d.get("flag_kind", "py")]
     return GroupScores(pos, neg, pos_groups=pg, neg_groups=ng, score_class=d["sc"],
-                       equal_class=d["ec"], is_sorted=is_sorted, **kw)
+                       equal_class=d["ec"], is_sorted=flag, **kw)
 
 
 def _py(x):
@@ -194,8 +197,9 @@ def check_object(g, d, thr, ctx, swapped=False):
 @st.composite
 def _struct_cases(draw):
     d = draw(_group_sets())
-    thr = draw(gen.shaped_thresholds(d["pos"] + d["neg"], shapes=[(), (2,), (3,), (2, 2), (0,)], mag=1e6))
-    return dict(d=d, thr=thr, via=draw(st.sampled_from(["ctor", "ctor", "labels", "sorted"])))
+    thr = draw(gen.shaped_thresholds(d["pos"] + d["neg"], shapes=[(), (2,), (3,), (2, 2), (2, 3), (0,)], mag=1e6))
+    return dict(d=d, thr=thr, via=draw(st.sampled_from(["ctor", "ctor", "labels", "sorted"])),
+                thr_layout=draw(st.sampled_from(["C", "F", "T"])))
 
 
 def check_structure(case):
@@ -203,6 +207,8 @@ def check_structure(case):
     if not d["pos"] and not d["neg"]:
         return dict(nontrivial=False, labels=["empty"])
     thr = gen.np_array(case["thr"]["flat"], tuple(case["thr"]["shape"]))
+    if thr.ndim >= 2 and case.get("thr_layout", "C") != "C":
+        thr = np.asfortranarray(thr) if case["thr_layout"] == "F" else np.ascontiguousarray(thr.T).T
     d = dict(d, _via=case["via"])
     g = _make(d, via="labels" if case["via"] == "labels" else "ctor", is_sorted=case["via"] == "sorted")
     check_object(g, d, thr, f"via={case['via']} config={d['sc']}/{d['ec']}")
